@@ -174,3 +174,4 @@ SHARED = [("C08", "post", ["C08.post", "C08.norm"]), ("C08", "lemmas", ["C08.add
 REPLAY = [("C11", "fa_repro.py", "score_entry_points", {})]
 TRUSTED = ["np.linalg.inv contract; compound axis C*D row-major", "linear_scoring and GMMStats.__add__ by their contracts (C08.post, C02.add.*)"]
 ASSUMPTIONS = ["UBM variances > 0", "fit_using_array is covered by the bounded objrun engine"]
+XCHECK = ['fa', 'linear']
